@@ -34,6 +34,15 @@ type Clause struct {
 	Line  int
 }
 
+// InstHint: "inst m = expr": when proving this function's obligations, expr
+// (whose otherwise unknown identifiers denote the goal's skolem constants of
+// that name) is offered as an instance for hypothesis binders named m.
+type InstHint struct {
+	Binder string
+	E      *SExpr
+	Src    string
+}
+
 type LoopSpec struct {
 	Invariants []Clause
 	Decreases  *Clause
@@ -57,7 +66,8 @@ type FuncContract struct {
 	HasMod    bool
 	Loops     map[int]*LoopSpec
 	Asserts   []AtCall
-	Uses      []Clause // lemma instantiations / hints, evaluated at goals
+	Uses      []Clause // lemma instantiations (only proved lemmas may be used)
+	Insts     []InstHint // instantiation hints: candidate terms for quantifier binders
 	Inline    bool
 	BV        bool
 	Recovers  bool
@@ -115,6 +125,9 @@ type ContractFile struct {
 	Secrets  []string
 	Sinks    []string
 	Raw      []string
+	WriteSets []string
+	Tables   map[string]*OracleTable
+	RowChecks []*RowCheck
 }
 
 var clauseKeywords = map[string]bool{
@@ -122,7 +135,7 @@ var clauseKeywords = map[string]bool{
 	"loop": true, "inline": true, "mode": true, "recovers": true, "diverges": true, "trusted": true,
 	"nosafe": true, "use": true, "monitor": true, "ghost": true, "case": true, "secret": true,
 	"sink": true, "flag": true, "const": true, "protects": true, "invariant": true, "abstract": true,
-	"inlinecalls": true,
+	"inlinecalls": true, "inst": true, "rows": true, "oracle": true, "row": true, "writeset": true,
 }
 
 func firstWord(s string) string {
@@ -177,7 +190,8 @@ func ParseContractFile(path string) (*ContractFile, error) {
 			joined[len(joined)-1].s += " " + l.s
 		}
 	}
-	cf := &ContractFile{Path: path, Consts: map[string]*SExpr{}}
+	cf := &ContractFile{Path: path, Consts: map[string]*SExpr{}, Tables: map[string]*OracleTable{}}
+	var curR *RowCheck
 	var curF *FuncContract
 	var curL *Lemma
 	var curM *Monitor
@@ -202,6 +216,7 @@ func ParseContractFile(path string) (*ContractFile, error) {
 		rest := strings.TrimSpace(l.s[len(w):])
 		switch {
 		case w == "func":
+			curR = nil
 			curF = &FuncContract{Name: rest, File: path, Line: l.n, Loops: map[int]*LoopSpec{}, Flags: map[string]string{}}
 			cf.Funcs = append(cf.Funcs, curF)
 			curL, curM = nil, nil
@@ -226,9 +241,51 @@ func ParseContractFile(path string) (*ContractFile, error) {
 			if err != nil {
 				return nil, fail(l, "%v", err)
 			}
+			curR = nil
 			curL = &Lemma{Name: name, Params: params, File: path, Line: l.n}
 			cf.Lemmas = append(cf.Lemmas, curL)
 			curF, curM = nil, nil
+		case w == "rows":
+			// rows GLOBAL oracle TABLE
+			f := strings.Fields(rest)
+			if len(f) != 3 || f[1] != "oracle" {
+				return nil, fail(l, "rows GLOBAL oracle TABLE")
+			}
+			curR = &RowCheck{Global: f[0], Oracle: f[2], File: path, Line: l.n}
+			cf.RowChecks = append(cf.RowChecks, curR)
+			curF, curL, curM = nil, nil, nil
+		case w == "oracle":
+			// oracle NAME fields a b c
+			f := strings.Fields(rest)
+			if len(f) < 3 || f[1] != "fields" {
+				return nil, fail(l, "oracle NAME fields f1 f2 ...")
+			}
+			cf.Tables[f[0]] = &OracleTable{Name: f[0], Fields: f[2:], Rows: map[string][]*big.Int{}, File: path}
+		case w == "row":
+			// row TABLE "key" v1 v2 ...
+			f := strings.Fields(rest)
+			if len(f) < 2 {
+				return nil, fail(l, "row TABLE \"key\" values...")
+			}
+			t := cf.Tables[f[0]]
+			if t == nil || len(f)-2 != len(t.Fields) {
+				return nil, fail(l, "row: unknown table or wrong number of values")
+			}
+			k, err := strconv.Unquote(f[1])
+			if err != nil {
+				return nil, fail(l, "row key: %v", err)
+			}
+			var vals []*big.Int
+			for _, vs := range f[2:] {
+				v, ok := new(big.Int).SetString(vs, 0)
+				if !ok {
+					return nil, fail(l, "row value %q", vs)
+				}
+				vals = append(vals, v)
+			}
+			t.Rows[k] = vals
+		case w == "writeset":
+			cf.WriteSets = append(cf.WriteSets, rest)
 		case w == "monitor":
 			// monitor (*pipe) mu
 			f := strings.Fields(rest)
@@ -283,6 +340,8 @@ func ParseContractFile(path string) (*ContractFile, error) {
 				return nil, err
 			}
 			switch {
+			case curR != nil && curF == nil && curL == nil && w == "ensures":
+				curR.Ensures = append(curR.Ensures, c)
 			case curF != nil && w == "requires":
 				curF.Requires = append(curF.Requires, c)
 			case curF != nil:
@@ -306,6 +365,19 @@ func ParseContractFile(path string) (*ContractFile, error) {
 			} else {
 				return nil, fail(l, "use outside func/lemma")
 			}
+		case w == "inst":
+			if curF == nil {
+				return nil, fail(l, "inst outside func")
+			}
+			i := strings.Index(rest, "=")
+			if i < 0 {
+				return nil, fail(l, "inst BINDER = expr")
+			}
+			e, err := ParseExpr(strings.TrimSpace(rest[i+1:]))
+			if err != nil {
+				return nil, fail(l, "%v", err)
+			}
+			curF.Insts = append(curF.Insts, InstHint{Binder: strings.TrimSpace(rest[:i]), E: e, Src: rest})
 		case w == "case":
 			if curF == nil {
 				return nil, fail(l, "case outside func")
